@@ -40,7 +40,7 @@ pub fn prop() -> Prop {
         stub: &["transport", "store", "glue", "random source", "tampering adversary"],
         independent: &["harness algebra for vk + G*r"],
         ref_sample: |_| 0,
-        required_probes: &["session_rerandomized", "seed_tamper_named", "commitment_tamper_named", "explicit_zero_randomizer", "explicit_randomizer", "cheater_under_randomization", "threshold_under_randomization", "taproot_rerandomized"],
+        required_probes: &["plain_twin_compared", "session_rerandomized", "seed_tamper_named", "commitment_tamper_named", "explicit_zero_randomizer", "explicit_randomizer", "cheater_under_randomization", "threshold_under_randomization", "taproot_rerandomized"],
         prepare: None,
     }
 }
@@ -361,6 +361,66 @@ fn exec_c<C: Suite>(scen: &Scenario) -> Exec {
                 return Exec::Violation(viol("C17.threshold_not_enforced", "sign_with_randomizer_seed signed although the key package records a higher threshold".to_string()), rep);
             }
             rep.probe("threshold_under_randomization");
+        }
+        // (d'') "unchanged under randomisation": a plain twin of the session (same members, same message, plain entry points) and the
+        // randomised one are given the same faulty coordinator inputs - the outcome (Ok, or the error with its culprits) is the same
+        {
+            let plain_shares: Result<BTreeMap<Identifier<C>, SignatureShare<C>>, _> = members.iter().enumerate().map(|(j, kp)| frost::round2::sign::<C>(&pkg, &nn[j], kp).map(|z| (*kp.identifier(), z))).collect();
+            let plain_shares = match plain_shares {
+                Ok(m) => m,
+                Err(e) => return Exec::Violation(viol("C17.honest_session_failed", format!("plain twin: sign = {e:?}")), rep),
+            };
+            let class = |r: Result<frost::Signature<C>, frost::Error<C>>| -> String {
+                match r {
+                    Ok(_) => "Ok".to_string(),
+                    Err(e) => format!("{e:?}"),
+                }
+            };
+            let last = *ids.iter().max().unwrap();
+            let mut cases: Vec<(String, frost::keys::PublicKeyPackage<C>, Option<(Identifier<C>, Option<Identifier<C>>)>)> = Vec::new();
+            // the coordinator's package does not list one of the signers (e.g. it predates that participant's enrolment)
+            let mut vs = pk.verifying_shares().clone();
+            vs.remove(&last);
+            cases.push(("public key package without the highest signer's entry".into(), frost::keys::PublicKeyPackage::<C>::new(vs, vk, pk.min_signers()), None));
+            // legacy package (no recorded threshold), everything else honest
+            cases.push(("legacy public key package".into(), frost::keys::PublicKeyPackage::<C>::new(pk.verifying_shares().clone(), vk, None), None));
+            // one share missing / filed under a group member that is not a signer
+            cases.push(("one share missing".into(), pk.clone(), Some((last, None))));
+            if let Some(other) = pk.verifying_shares().keys().find(|i| !ids.contains(i)) {
+                cases.push(("one share filed under a non-signing member".into(), pk.clone(), Some((last, Some(*other)))));
+            }
+            for (cname, cpk, refile) in cases {
+                let adjust = |m: &BTreeMap<Identifier<C>, SignatureShare<C>>| {
+                    let mut m = m.clone();
+                    if let Some((from, to)) = &refile {
+                        let z = m.remove(from).unwrap();
+                        if let Some(to) = to {
+                            m.insert(*to, z);
+                        }
+                    }
+                    m
+                };
+                let (ps, rs) = (adjust(&plain_shares), adjust(&honest));
+                let plain = [
+                    ("aggregate", class(frost::aggregate::<C>(&pkg, &ps, &cpk))),
+                    ("Disabled", class(frost::aggregate_custom::<C>(&pkg, &ps, &cpk, CheaterDetection::Disabled))),
+                    ("FirstCheater", class(frost::aggregate_custom::<C>(&pkg, &ps, &cpk, CheaterDetection::FirstCheater))),
+                    ("AllCheaters", class(frost::aggregate_custom::<C>(&pkg, &ps, &cpk, CheaterDetection::AllCheaters))),
+                ];
+                let rand = [
+                    ("aggregate", class(frost_rerandomized::aggregate(&pkg, &rs, &cpk, &cparams))),
+                    ("Disabled", class(frost_rerandomized::aggregate_custom(&pkg, &rs, &cpk, CheaterDetection::Disabled, &cparams))),
+                    ("FirstCheater", class(frost_rerandomized::aggregate_custom(&pkg, &rs, &cpk, CheaterDetection::FirstCheater, &cparams))),
+                    ("AllCheaters", class(frost_rerandomized::aggregate_custom(&pkg, &rs, &cpk, CheaterDetection::AllCheaters, &cparams))),
+                ];
+                rep.evaluations += 8;
+                for k in 0..4 {
+                    if plain[k].1 != rand[k].1 {
+                        return Exec::Violation(viol("C17.outcome_differs_from_plain", format!("{cname}, {}: plain FROST gives {}, the re-randomised entry point gives {}", plain[k].0, plain[k].1, rand[k].1)), rep);
+                    }
+                }
+                rep.probe("plain_twin_compared");
+            }
         }
         // (e) explicit randomisers through the deprecated entry point, zero included
         for which in ["zero", "random"] {
